@@ -33,17 +33,12 @@ func (m *monC04) init(sc *Scenario) {
 }
 
 // corrFactor: the documented monthly correction table is indexed by day of year with the month limits of a normal year
-func corrFactor(sc *Scenario, doy int) float64 {
+// corrFactor: the monthly precipitation correction of a date - the factor of the calendar month the date lies in
+func corrFactor(sc *Scenario, d Date) float64 {
 	if !sc.PrecipCorr {
 		return 1
 	}
-	lim := []int{32, 60, 91, 121, 152, 182, 213, 244, 274, 305, 335}
-	for mi, l := range lim {
-		if doy < l {
-			return sc.PrecoFactors[mi]
-		}
-	}
-	return sc.PrecoFactors[11]
+	return sc.PrecoFactors[d.M-1]
 }
 
 func closeTo(a, b float64) bool { return math.Abs(a-b) <= 1e-9*math.Max(1, math.Abs(b)) }
@@ -116,7 +111,7 @@ func (m *monC04) Event(ev *hermes.VerifEvent, rc *RunCtx) {
 					map[string]float64{"got": got, "want": want})
 			}
 		}
-		chk("precipitation", g.REGEN[idx], d.Precip/10*corrFactor(sc, date.DOY()))
+		chk("precipitation", g.REGEN[idx], d.Precip/10*corrFactor(sc, date))
 		chk("radiation", g.RAD[idx], d.Glob/2)
 		chk("tmin", g.TMIN[idx], d.Tmin)
 		chk("tmax", g.TMAX[idx], d.Tmax)
